@@ -307,7 +307,9 @@ def liveCheck (s : St) : List String :=
    bad "M_cnt1" (decide (liveCnt + pend.length ≤ s.procs.length)) ++
    bad "M_cnt2" (!exitPhase s || decide (liveCnt + stopsSent ≤ noneCount s.workQ + s.procs.length)) ++
    bad "M_cnt3" (!exitPhase s || decide (noneCount s.workQ ≤ stopsSent)) ++
-   bad "M_cnt4" (s.cfg.factory || decide (noneCount s.workQ + s.procs.length ≤ liveCnt + stopsSent)))
+   bad "M_cnt4" (s.cfg.factory || decide (noneCount s.workQ + s.procs.length ≤ liveCnt + stopsSent)) ++
+   bad "M_flowClear" (s.cpc != .flowClear || bufferFull s) ++
+   bad "M_rFac" (!(s.cpc == .rPutNone || s.cpc == .rStopSet || s.cpc == .rJoin) || s.cfg.factory))
 
 /-- stuck: nobody can move although the caller has not finished -/
 def stuck (s : St) : Bool := s.cpc != .done && (enabledTids s).isEmpty
